@@ -51,7 +51,7 @@ InsAhead == Cardinality({i \in ln..Len(Tr) : Tr[i].k = "in" /\ Tr[i].t = now})
 
 TPoll ==
   /\ s.todo = 0
-  /\ \E n \in 0..InsAhead : \E tq \in Perms(Due(s)) :
+  /\ \E n \in 0..InsAhead : \E tq \in Perms(DueCopies(s)) :
        /\ n > 0 \/ s.ready # <<>> \/ Due(s) # {}
        /\ LET slots == [i \in 1..n |-> [kind |-> "slot"]]
               s2 == [s EXCEPT !.ready = @ \o slots \o TimerCbs(tq), !.timers = @ \ Due(s), !.outs = <<>>]
